@@ -39,7 +39,7 @@ check("C07", "exploration",
       "DESIGN.md §3 C07")
 check("C08", "model_checking",
       "explicit-state search over all call histories up to depth 4/5 on real Parser / Tokenizer objects, reference configuration model in lock-step, probe-based differential oracle",
-      "All histories over a 14-operation parser alphabet and an 11-operation tokenizer alphabet (parse variants, failures, cancellations, depth-limit input, options, Reset, Release, Put) are executed on a fresh instance; afterwards a probe set whose answers depend on every field of the instance must answer exactly as a new instance with the model's configuration, and after Reset/Put the instance must equal a new one field by field (unexported fields included).",
+      "All histories over a 14-operation parser alphabet and an 11-operation tokenizer alphabet (parse variants, failures, cancellations, depth-limit input, options, Reset, Release, Put) are executed on a fresh instance; afterwards a probe set whose answers depend on every field of the instance must answer exactly as a new instance with the model's configuration, and after Reset/Put the instance must equal a new one field by field (unexported fields included); pool hand-out histories (9 pool operations incl. releasing a recovery result twice, depth 5/6): no instance is ever owned by two holders and every instance handed out answers like a new one.",
       "Trusted: the two-field configuration model (strict, dialect); 'same pointer after Put' stands for the next pool holder.",
       "DESIGN.md §2.4, §3 C08", engine="engine/common (history enumeration)")
 check("C09", "model_checking",
